@@ -2,6 +2,7 @@
 //! usage: zxharness <property> --model <zxmodel> --out <report.json> [--tier quick|thorough]
 //!                  [--seed N] [--replay-case <text>]
 mod host;
+mod sys;
 mod util;
 mod c01;
 mod c02;
